@@ -3,8 +3,9 @@
 -/
 import TB.Spec.ExportSpec
 import TB.Lemmas.Run
+import TB.Lemmas.RunB
 namespace TB
-
+open TB.RB
 /-- an existing export image longer than declared -/
 def Overlong (fs : Fs) (e : TEntry) : Prop :=
   e.isPad = false ∧ ∃ i, fs.look e.fullTarget = .file i ∧ (fs.content i).length > e.fileLength
@@ -13,19 +14,79 @@ def Overlong (fs : Fs) (e : TEntry) : Prop :=
 theorem C14_pass1_readonly (st : St) (table : List TEntry) :
     (resizePass1 st table).1.fs = st.fs ∧
     ∃ new, (resizePass1 st table).1.ops = st.ops ++ new ∧ ∀ o ∈ new, o.kind = .openr := by
-  sorry
+  induction table generalizing st with
+  | nil => exact ⟨rfl, [], by simp [resizePass1], by simp⟩
+  | cons e es ih =>
+    have hopen : ∃ new, (st.openr e.fullTarget).1.ops = st.ops ++ new ∧ ∀ o ∈ new, o.kind = .openr :=
+      ⟨_, St.openr_ops st _, by simp⟩
+    rcases resizePass1_cases st e es with h | h | h <;> rw [h]
+    · exact ih st
+    · exact ⟨St.openr_fs st _, hopen⟩
+    · obtain ⟨i1, n2, i2, i3⟩ := ih (st.openr e.fullTarget).1
+      obtain ⟨n1, h1, h2⟩ := hopen
+      refine ⟨i1.trans (St.openr_fs st _), n1 ++ n2, by rw [i2, h1, List.append_assoc], ?_⟩
+      intro o ho
+      rcases List.mem_append.1 ho with ho | ho
+      · exact h2 o ho
+      · exact i3 o ho
 
 /-- if any existing export image is longer than declared, the first pass reports an error -/
 theorem C14_pass1_detects (st : St) (table : List TEntry)
     (h : ∃ e ∈ table, Overlong st.fs e) : (resizePass1 st table).2 = .error := by
-  sorry
+  induction table generalizing st with
+  | nil => obtain ⟨e, he, _⟩ := h; cases he
+  | cons e es ih =>
+    obtain ⟨x, hx, hov⟩ := h
+    rw [resizePass1_cons]
+    rcases List.mem_cons.1 hx with rfl | hx
+    · obtain ⟨hp, i, hl, hlen⟩ := hov
+      rw [hp, hl, St.openr_fs]
+      simp only [Bool.false_eq_true, if_false]
+      split
+      · simp
+      · rfl
+    · have ih1 := ih st ⟨x, hx, hov⟩
+      have ih2 := ih (st.openr e.fullTarget).1 ⟨x, hx, by rw [St.openr_fs]; exact hov⟩
+      split
+      · exact ih1
+      · split
+        · split
+          · exact ih2
+          · rfl
+        · split
+          · split
+            · rfl
+            · exact ih2
+          · exact ih2
 
 /-- with the flag on and an over-long export image present, the run fails before modifying anything -/
 theorem C14_abort (H : Bytes → Bytes) (inp : RunIn) (hres : inp.resize = true)
     (hover : ∃ e ∈ buildTable inp.exportDir.path (dedupTorrents (sortTorrents inp.torrents)) 0, Overlong inp.fs e)
     (hne : inp.torrents ≠ []) :
     (run H inp).result = .err ∧ (run H inp).fs = inp.fs ∧ ∀ o ∈ (run H inp).ops, o.kind.mutating = false := by
-  sorry
+  obtain ⟨h1, _, ⟨n, h2, h3⟩, _⟩ := validateAll_spec ⟨inp.fs, [], inp.faults⟩ (inp.scan ++ [inp.exportDir])
+  unfold run
+  have : inp.torrents.isEmpty = false := by cases ht : inp.torrents <;> simp_all
+  simp only [this, Bool.false_eq_true, if_false]
+  rcases hv : validateAll ⟨inp.fs, [], inp.faults⟩ (inp.scan ++ [inp.exportDir]) with ⟨st1, ok⟩
+  rw [hv] at h1 h2
+  simp only at h1 h2
+  cases ok
+  · refine ⟨rfl, h1, ?_⟩
+    show ∀ o ∈ st1.ops, _
+    rw [h2]; intro o ho
+    rw [h3 o (by simpa using ho)]; rfl
+  · simp only [hres, if_true]
+    have hd := C14_pass1_detects st1 _ (by rw [h1]; exact hover)
+    obtain ⟨r1, n2, r2, r3⟩ := C14_pass1_readonly st1 (buildTable inp.exportDir.path (dedupTorrents (sortTorrents inp.torrents)) 0)
+    rw [fixExportFileLengths_error _ _ hd]
+    refine ⟨rfl, r1.trans h1, ?_⟩
+    show ∀ o ∈ (resizePass1 st1 _).1.ops, _
+    rw [r2, h2]; intro o ho
+    simp only [List.nil_append, List.mem_append] at ho
+    rcases ho with ho | ho
+    · rw [h3 o ho]; rfl
+    · rw [r3 o ho]; rfl
 
 /-- the pre-flight never shrinks a file and never changes anything but the length of an export image:
     every operation of the second pass is a read+write open or a set_len to the declared length of a
@@ -34,13 +95,35 @@ theorem C14_pass2_ops (st : St) (table : List TEntry) :
     ∃ new, (resizePass2 st table).1.ops = st.ops ++ new ∧
       ∀ o ∈ new, ∃ e ∈ table, e.isPad = false ∧ o.path = e.fullTarget ∧
         (o.kind = .openrw ∨ o.kind = .setlen e.fileLength) := by
-  sorry
+  induction table generalizing st with
+  | nil => exact ⟨[], by simp [resizePass2], by simp⟩
+  | cons e es ih =>
+    rcases resizePass2_step st e es with h | ⟨st', n1, h, h1, h2⟩
+    · rw [h]
+      obtain ⟨n, i1, i2⟩ := ih st
+      refine ⟨n, i1, fun o ho => ?_⟩
+      obtain ⟨x, hx, hr⟩ := i2 o ho
+      exact ⟨x, List.mem_cons_of_mem _ hx, hr⟩
+    · rcases h with h | h <;> rw [h]
+      · obtain ⟨n, i1, i2⟩ := ih st'
+        refine ⟨n1 ++ n, by rw [i1, h1, List.append_assoc], fun o ho => ?_⟩
+        rcases List.mem_append.1 ho with ho | ho
+        · exact ⟨e, List.mem_cons_self, h2 o ho⟩
+        · obtain ⟨x, hx, hr⟩ := i2 o ho
+          exact ⟨x, List.mem_cons_of_mem _ hx, hr⟩
+      · exact ⟨n1, h1, fun o ho => ⟨e, List.mem_cons_self, h2 o ho⟩⟩
 
 /-- zero-extension keeps the existing bytes and appends zeros -/
 theorem C14_setLen_extend (fs : Fs) (i n : Nat) (h : (fs.content i).length ≤ n) :
     (fs.setLen i n).content i = fs.content i ++ List.replicate (n - (fs.content i).length) 0
     ∧ ∀ j, j ≠ i → (fs.setLen i n).content j = fs.content j := by
-  sorry
+  refine ⟨?_, fun j hj => Fs.content_setData_other _ _ _ _ hj⟩
+  unfold Fs.setLen
+  rw [Fs.content_setData_same]
+  split
+  · have : n = (fs.content i).length := by omega
+    rw [this]; simp
+  · rfl
 
 /-- one step of the second pass on a shorter image (no fault at this point): the image is extended to exactly
     the declared length, old bytes kept, zeros appended -/
@@ -50,13 +133,37 @@ theorem C14_extend_step (st : St) (e : TEntry) (es : List TEntry) (i : Nat)
     (hf1 : st.faults.contains st.ops.length = false) (hf2 : st.faults.contains (st.ops.length + 1) = false) :
     ∃ st', resizePass2 st (e :: es) = resizePass2 st' es ∧
       st'.fs.content i = st.fs.content i ++ List.replicate (e.fileLength - (st.fs.content i).length) 0 := by
-  sorry
+  have h1 : st.op .openrw e.fullTarget (natOpenrw e.fullTarget) =
+      ({ st with ops := st.ops ++ [⟨.openrw, e.fullTarget, true⟩] }, true) := by
+    rw [St.op_nofault _ _ _ _ hf1]
+    simp [natOpenrw, hl]
+  have h2 : ({ st with ops := st.ops ++ [⟨.openrw, e.fullTarget, true⟩] } : St).op (.setlen e.fileLength) e.fullTarget
+      (fun fs => (fs.setLen i e.fileLength, true)) =
+      ({ st with fs := st.fs.setLen i e.fileLength, ops := st.ops ++ [⟨.openrw, e.fullTarget, true⟩] ++ [⟨.setlen e.fileLength, e.fullTarget, true⟩] }, true) := by
+    rw [St.op_nofault _ _ _ _ (by simpa using hf2)]
+  refine ⟨{ st with fs := st.fs.setLen i e.fileLength, ops := st.ops ++ [⟨.openrw, e.fullTarget, true⟩] ++ [⟨.setlen e.fileLength, e.fullTarget, true⟩] }, ?_, (C14_setLen_extend st.fs i e.fileLength (Nat.le_of_lt hs)).1⟩
+  rw [resizePass2_cons, hp, h1, hl]
+  simp only [Bool.false_eq_true, if_false, Bool.not_true, hs, if_true, h2]
 
 /-- without the flag a run changes no length outside a write group: every set_len in the log directly follows
     the successful create-open of the same export image -/
 theorem C14_noflag (H : Bytes → Bytes) (inp : RunIn) (hres : inp.resize = false) :
     ∀ k n p ok, (run H inp).ops[k]? = some ⟨.setlen n, p, ok⟩ →
       k > 0 ∧ (run H inp).ops[k-1]? = some ⟨.openc, p, true⟩ := by
-  sorry
+  show SetlenInv (run H inp).ops
+  by_cases hne : inp.torrents = []
+  · have : (run H inp).ops = [] := by simp [run, hne]
+    rw [this]; exact SetlenInv.nil
+  · have i1 : SetlenInv (runSt1 inp).ops :=
+      SetlenInv.ext (st := ⟨inp.fs, [], inp.faults⟩) SetlenInv.nil (validateAll_nsext _ _)
+    have e2 : runSt2 inp = runSt1 inp := by simp [runSt2, hres]
+    have i3 : SetlenInv (runSt3 inp).ops := by
+      have i2 : SetlenInv (runSt2 inp).ops := by rw [e2]; exact i1
+      exact i2.ext (addExportPaths_nsext (runSt2 inp) [] (runTable0 inp))
+    rcases run_shape H inp hne with ⟨_, h, _⟩ | ⟨_, h, _⟩ | ⟨_, h, _⟩ | ⟨ordered, _, _, _, h, _⟩ <;> rw [h]
+    · exact i1
+    · rw [e2]; exact i1
+    · exact i3
+    · exact solveAll_inv _ _ _ _ _ i3
 
 end TB
